@@ -73,9 +73,21 @@ Proof. repeat split; vm_compute; reflexivity. Qed.
 
 Print Assumptions C10_str_cursor_refines_index.
 Print Assumptions C10_str_offsets_strictly_increasing.
+(* IoInput: whatever order the parser asks in (backtracking, lookahead that ends before or after the parser it guards,
+   the same position twice), the reader returns the byte at the cursor: every history of requests is answered by position *)
+Theorem C10_io_input_answers_every_request_by_position :
+  forall bytes cs, io_run bytes io_init cs = map (fun c => option_map (fun b => (b, S c)) (nth_error bytes c)) cs.
+Proof. intros bytes cs. exact (io_refines bytes cs io_init io_init_ok). Qed.
+
+(* the scenario of a.and_is(b) with b shorter than a: read 0, 1 (a), back to 0 (b), then on from 2 *)
+Example C10_io_forward_jump :
+  io_run [97; 98; 99]%N io_init [0; 1; 0; 2; 3] = [Some (97%N, 1); Some (98%N, 2); Some (97%N, 1); Some (99%N, 3); None].
+Proof. vm_compute. reflexivity. Qed.
+
 Print Assumptions C10_stream_refines_and_pulls_once.
 Print Assumptions C10_stream_initial_state.
 Print Assumptions C10_mapped_span_first_to_last.
 Print Assumptions C10_byte_cursors_refine_the_index_machine_for_any_token_width.
 Print Assumptions C10_byte_offsets_strictly_increasing_for_any_token_width.
 Print Assumptions C10_no_decoding_inside_a_token.
+Print Assumptions C10_io_input_answers_every_request_by_position.
